@@ -266,7 +266,10 @@ func genCase(t *rapid.T) Case {
 	c := Case{}
 	devs := []string{"rsa1024a", "rsa1024b", "rsa1025", "rsa1031", "rsa1536", "rsa2047", "rsa2048d"}
 	if vh.Thorough() {
-		devs = append(devs, "rsa3072", "rsa4096")
+		devs = append(devs, "rsa3072", "rsa4096", "rsa4104", "rsa4608", "rsa6144")
+	} else if rapid.IntRange(0, 63).Draw(t, "bigDev") == 29 {
+		// rarely in the quick tier: device keys at and above the largest size a current token holds
+		devs = []string{"rsa4096", "rsa4104", "rsa4608", "rsa6144"}
 	}
 	c.DevKey = rapid.SampledFrom(devs).Draw(t, "dev")
 	c.Issuer = rapid.SampledFrom([]string{"rootA", "rootA", "rootA", "rootA", "rootB", "rootB", "foreign", "self"}).Draw(t, "issuer")
@@ -512,7 +515,7 @@ func exec(c Case) (vh.Outcome, error) {
 	return out, nil
 }
 
-const rule = "the harness owns the device RSA private key and signs arbitrary encoded messages (sig = EM^d mod N): correct form 1 (with NULL) and form 2 (without) for SHA-1/256/384/512; one byte replaced at a position drawn per class (00, 01, first / last / inner padding byte, separator, identifier, digest); shortened padding with shifted tail and garbage; short EM with 0..7 padding bytes; identifier of another hash; digest of other data; single-bit flips of signature and body; arbitrary signature bytes; genuine ECDSA signature under a non-RSA device key. Crossed with every signature-algorithm label 0..20, device key sizes 1024/1025/1031/1536/2047/2048 (3072/4096 in thorough), device certificate issued by a pool root / by a CA outside the pool / self-signed / expired / not yet valid, optionally carrying a vendor extension (Yubico arc, plain or critical) or another unknown critical extension (then only 'accepted => valid chain' is judged), pools of 1..3 roots handed over as a pool or (a third) as the two PEM files NewAttestor reads - the CA outside the pool is installed as this process's host trust store (SSL_CERT_FILE), i.e. a publicly trusted CA that is not configured -, slot certificate dated now / inside an expired device certificate's window / in the future / not at all (the chain must be judged at the current time). Oracle: the harness recomputes sig^e mod N itself; for *WithRSA SHA labels Attest = nil iff chain valid now and EM is form 1 or form 2 of the label's digest; DSA/ECDSA labels only-if; everything else must be refused. Non-trivial: every case except 'everything valid, form 1'."
+const rule = "the harness owns the device RSA private key and signs arbitrary encoded messages (sig = EM^d mod N): correct form 1 (with NULL) and form 2 (without) for SHA-1/256/384/512; one byte replaced at a position drawn per class (00, 01, first / last / inner padding byte, separator, identifier, digest); shortened padding with shifted tail and garbage; short EM with 0..7 padding bytes; identifier of another hash; digest of other data; single-bit flips of signature and body; arbitrary signature bytes; genuine ECDSA signature under a non-RSA device key. Crossed with every signature-algorithm label 0..20, device key sizes 1024/1025/1031/1536/2047/2048 (rarely 4096/4104/4608/6144; always, with 3072, in thorough), device certificate issued by a pool root / by a CA outside the pool / self-signed / expired / not yet valid, optionally carrying a vendor extension (Yubico arc, plain or critical) or another unknown critical extension (then only 'accepted => valid chain' is judged), pools of 1..3 roots handed over as a pool or (a third) as the two PEM files NewAttestor reads - the CA outside the pool is installed as this process's host trust store (SSL_CERT_FILE), i.e. a publicly trusted CA that is not configured -, slot certificate dated now / inside an expired device certificate's window / in the future / not at all (the chain must be judged at the current time). Oracle: the harness recomputes sig^e mod N itself; for *WithRSA SHA labels Attest = nil iff chain valid now and EM is form 1 or form 2 of the label's digest; DSA/ECDSA labels only-if; everything else must be refused. Non-trivial: every case except 'everything valid, form 1'."
 
 func TestC06Attest(t *testing.T) {
 	vh.Run(t, vh.Spec[Case]{Property: "C06", Name: "TestC06Attest", Rule: rule, Gen: genCase, Exec: exec})
@@ -560,6 +563,34 @@ func TestC06PositionSweep(t *testing.T) {
 }
 
 // TestC06ChainTime: device certificate validity x dates of the slot certificate, everything else valid.
+// TestC06KeySizes: every RSA device key size of the pool, from 1024 to 6144 bits.
+func TestC06KeySizes(t *testing.T) {
+	var cases []Case
+	tbs := []byte("slot certificate body")
+	for _, dev := range []string{"rsa1024a", "rsa1025", "rsa1031", "rsa1536", "rsa2047", "rsa2048d", "rsa3072", "rsa4096", "rsa4104", "rsa4608", "rsa6144"} {
+		for _, algo := range []int{4, 6} {
+			h := map[int]string{4: "sha256", 6: "sha512"}[algo]
+			base := Case{DevKey: dev, Issuer: "rootA", Validity: "ok", Pool: []string{"rootA"}, Algo: algo, EMHash: h, TBS: tbs, SlotDates: "zero", Form: 1}
+			for _, kind := range []string{"form1", "form2", "otherdata", "sigflip", "tbsflip", "shortem", "sigrandom"} {
+				c := base
+				c.Kind = kind
+				if kind == "form2" {
+					c.Form = 2
+				}
+				c.OtherTBS, c.FlipBit, c.PadLen, c.Garbage = []byte("another body"), 77, 3, []byte{1, 2, 3, 4, 5}
+				cases = append(cases, c)
+			}
+		}
+	}
+	vh.Enumerate(t, vh.Spec[Case]{Property: "C06", Name: "TestC06KeySizes", Exhaustive: true,
+		Rule: "RSA device keys of 1024, 1025, 1031, 1536, 2047, 2048, 3072, 4096, 4104, 4608 and 6144 bits (certified by a pool root) x SHA-256 / SHA-512 x {genuine form 1, genuine form 2, digest of other data, one signature bit flipped, one body bit flipped, short encoded message, arbitrary signature bytes} (154 points); same oracle: the genuine ones are accepted, everything else refused, for every size",
+		Exec: func(c Case) (vh.Outcome, error) {
+			o, err := exec(c)
+			o.NonTrivial = true
+			return o, err
+		}}, cases)
+}
+
 func TestC06ChainTime(t *testing.T) {
 	var cases []Case
 	tbs := []byte("slot certificate body")
